@@ -2908,6 +2908,9 @@ impl Database {
                 }
 
                 let use_hash_join = !key_indices.is_empty() && condition_predicate.is_none();
+                // which hand-written join loop answers this query (1 = hash, 0 = nested loop)
+                #[cfg(kahflane_turdb_verif)]
+                crate::verif::point("join.path.materialized", &[use_hash_join as i64]);
 
                 let left_key_indices: Vec<usize> = key_indices.iter().map(|(l, _)| *l).collect();
                 let right_key_indices: Vec<usize> = key_indices
@@ -3521,6 +3524,8 @@ impl Database {
                 result_rows
             }
             Some(PlanSource::IndexNestedLoopJoin(join)) => {
+                #[cfg(kahflane_turdb_verif)]
+                crate::verif::point("join.path.index_nested_loop", &[]);
                 use crate::btree::BTreeReader;
                 use crate::records::RecordView;
                 use crate::sql::ast::Expr;
